@@ -47,7 +47,8 @@ Definition check_coll (k : CollCase_coll.case) : codes :=
 
 (* ---------- the shutdown sequence with real transmissions ---------- *)
 Record shut := { s_coll : CollCase_coll.case; s_up : Monitor.C26.case; s_peer : Monitor.C26.case }.
-Inductive c36case := CColl (k : CollCase_coll.case) | CShut (s : shut).
+(* CCrash: the child process running a shutdown scenario died (1: panic / fatal error, 2: Stop failed or hung) *)
+Inductive c36case := CColl (k : CollCase_coll.case) | CShut (s : shut) | CCrash (kind : N).
 
 (* Transmission side.  Codes of family txcfg's C26 monitor are re-numbered 20 + (code - 10):
    20  an event enqueued before shutdown (<= 1 MB, well-formed destination) was in no request: lost by the flush
@@ -97,4 +98,4 @@ Definition check_shut (s : shut) : codes :=
 
 Definition case := c36case.
 Definition check (k : case) : codes :=
-  match k with CColl c => check_coll c | CShut s => check_shut s end.
+  match k with CColl c => check_coll c | CShut s => check_shut s | CCrash kind => [if N.eqb kind 1 then 17%N else 11%N] end.
